@@ -438,7 +438,7 @@ static void first_use_case(uint64_t N, int T, int cfg, unsigned rep) {
 void run_C12(void) {
   const int th = G.thorough;
   static const int TS[] = {8, 16, 4, 2};
-  const unsigned n = th ? 300 : 10;
+  const unsigned n = th ? 150 : 10;
   // cold cases first: the first case a fresh process runs is its cold start
   for (unsigned rep = 0; rep < n; rep++)
     for (size_t ti = 0; ti < ARRAY_LEN(TS); ti++) conc_case(0, rep + (unsigned)ti, TS[ti], 1 + (int)(rep & 1), rep);
